@@ -273,6 +273,18 @@ def scenarios(tier: str) -> tuple[list[C06Scenario], list[C06Scenario]]:
     for backoff, timeout, dur in ((2.0, 3.0, 20.0), (None, 3.0, 20.0), (2.0, 3.0, 12.5)):
         base.append(C06Scenario(handlers=[dict(id='dm', on='daemon', body='sync', duration=dur, cancellation_backoff=backoff, cancellation_timeout=timeout)],
                                 user=[(1.0, 'create', 'a'), (10.0, 'delete', 'a'), (11.0, 'status', 'a', 1)], settings=st, horizon=50.0, variant='sync-daemon'))
+    # a label-filtered daemon that is slow to leave: the label goes off and comes back while the old instance is still leaving, then
+    # the object is deleted (right away, after the old instance has left, after a further event)
+    for dm in (dict(id='dm', on='daemon', reaction='obeys', exit_delay=3.0, labels={'on': 'yes'}),
+               dict(id='dm', on='daemon', reaction='cancel', exit_delay=3.0, cancellation_backoff=None, cancellation_timeout=6.0, labels={'on': 'yes'})):
+        for t_on, t_del, extra_ev in itertools.product((6.0, 9.0), (7.0, 10.0, 14.0), (None, 9.5)):
+            if t_del <= t_on:
+                continue
+            user = [(1.0, 'createl', 'a', 'on', 'yes'), (5.0, 'label', 'a', 'on', 'no'), (t_on, 'label', 'a', 'on', 'yes')]
+            if extra_ev and t_on < extra_ev < t_del:
+                user.append((extra_ev, 'status', 'a', 1))
+            user += [(t_del, 'delete', 'a'), (t_del + 0.5, 'status', 'a', 2)]
+            base.append(C06Scenario(handlers=[dm], user=sorted(user, key=lambda u: u[0]), settings=st, horizon=50.0, variant='relabel-slow-daemon'))
     # two spawned handlers: the first-registered one exits on its own, the other keeps requiring the finalizer
     for second in (dict(id='dm2', on='daemon', reaction='cancel', cancellation_backoff=None, cancellation_timeout=3.0),
                    dict(id='dm2', on='daemon', reaction='obeys', exit_delay=1.0),
